@@ -6,23 +6,59 @@ import sys
 
 sys.path.insert(0, os.path.dirname(os.path.abspath(__file__)))
 import resolver_gen as G  # noqa: E402
-import sexp  # noqa: E402
 
 ID = 'C06'
 PROPS_FILE = 'theories/Props/C06.v'
 PROPS_MODULE = 'Props.C06'
 COQ_TARGETS = ['theories/Extract/ExtractC06.vo']
-REQUIRED_THEOREMS = ['C06_budget_const']
+REQUIRED_THEOREMS = ['C06_total', 'C06_budget', 'C06_limit_error', 'C06_cycle_error', 'C06_operands_total',
+                     'C06_calls_bounded', 'C06_bounded_partial']
 MODEL = 'resolver'
 HARNESS_BINS = ['bundle_run', 'syn_run']
 RELEASE_TOO = True
 ANCHORS = ['fluent-bundle/src/resolver/pattern.rs', 'fluent-bundle/src/resolver/scope.rs', 'fluent-bundle/src/resolver/expression.rs',
-           'fluent-bundle/src/resolver/inline_expression.rs', 'fluent-bundle/src/types/number.rs', 'fluent-bundle/src/types/mod.rs',
-           'fluent-bundle/src/bundle.rs']
-TRUSTED = []
-ASSUMPTIONS = []
-RULE = ''
-MANIFEST = {}
+           'fluent-bundle/src/resolver/inline_expression.rs', 'fluent-bundle/src/resolver/errors.rs', 'fluent-bundle/src/types/number.rs',
+           'fluent-bundle/src/types/mod.rs', 'fluent-bundle/src/builtins.rs', 'fluent-bundle/src/entry.rs', 'fluent-bundle/src/bundle.rs']
+TRUSTED = [
+    'modelled, not verified (validated by the correspondence run only): the hand-written Gallina transliteration of the resolver '
+    '(Bundle/ResolverModel.v, one definition per Rust function), of FluentNumber/PluralOperands (Bundle/Number.v) and of the bundle lookup '
+    '(an association list id -> message/term/function, first registration wins)',
+    'numbers are exact decimals = the Display text of the f64; valid for literals with at most 15 significant digits and for every f64/integer '
+    'argument (the case carries Rust\'s own Display text, the harness checks it); f64::from_str / Display themselves are trusted',
+    'fmt::Write is an infallible buffer (String); `travelled.contains` is the derived structural PartialEq (read off scope.rs)',
+    'with_try_get(...).unwrap() on the plural-rules memoizer never fails (PluralRules::construct negotiates against the locales that have rules, default en)',
+    'external code as section variables: registered functions, transform, formatter (pure total functions), CLDR rules, custom-type printing, '
+    'unescape_unicode (total by C13), f64::from_str; the CLDR tables of Bundle/Plural.v instantiate `rules` in the extraction only',
+]
+ASSUMPTIONS = [
+    'values_are_f64: what f64::from_str returns, what registered functions return and what the caller passes are numbers in the range of an f64 '
+    '(fval_in_f64_range: with a fraction, integer and fraction part each fit a u64 — true of every f64 Display text); without it '
+    'PluralOperands::try_from(f64).expect(..) is reachable in the exact-decimal model, not in Rust',
+    'C06_bounded_partial / C06_calls_bounded: see PARTIAL',
+]
+PARTIAL = ('C06_bounded is proved as C06_bounded_partial: the number of tokens written is bounded ((MAX_PLACEABLES+1) x widest pattern), not their '
+           'byte length: a byte bound needs a bound on every value that can be printed, and NUMBER(1, minimumFractionDigits: 99999999999) makes '
+           'FluentNumber::as_string ask for ~10^11 bytes (known real-code finding D11, never generated here). The exact-decimal float parser used '
+           'by the extracted model meets values_are_f64 only for literals whose integer and fraction parts fit a u64.')
+RULE = ('designed generators: placeable limit forced to trip at every syntactic position (select variant, nested placeable, call argument, term '
+        'and message attribute, selector) by a counted prefix of placeables; reference graphs (chains, fan-out of arity 2..10, cycles through '
+        'messages/terms/attributes/variants/arguments); missing references of every kind; selects on every value kind x locales; number literals, '
+        'NUMBER options and arguments of every Rust number type incl. NaN/inf/1e300/subnormals; plus random bundles from a grammar; each case is '
+        'run on a debug and a release build (format_pattern, write_pattern, isolation flipped); distinct = distinct implementation outputs')
+MANIFEST = {
+    'text': 'Rocq theorems over ALL bundles, argument sets and patterns: with the explicit fuel (#patterns+1)x(deepest pattern+2) the resolver '
+            'model returns Done — no unreachable!/expect/unwrap/u8 overflow, no non-termination (C06_total; lexicographic measure: patterns not '
+            'on `travelled`, AST depth); the placeable counter ends <= MAX_PLACEABLES+1 < 2^8 (C06_budget, constants regenerated from pattern.rs); '
+            'counter at the limit or dirty => TooManyPlaceables reported, re-entered pattern => Cyclic (C06_limit_error, C06_cycle_error); '
+            'plural operands never panic for any f64 and any minimum_fraction_digits (C06_operands_total); function invocations and tokens '
+            'written are bounded by (MAX_PLACEABLES+1) x local size (C06_calls_bounded, C06_bounded_partial). The model is tied to the Rust '
+            'resolver by running the extracted model and the real bundle (debug and release) on the same generated cases.',
+    'note': 'Trusted: Coq kernel, extraction, the hand transliteration (validated by the differential run), exact-decimal stand-in for f64 '
+            '(<= 15 significant digits), purity/totality of user callbacks. Partial: byte-length bound (D11: minimumFractionDigits is unbounded).',
+    'technique': 'Rocq proof (induction on fuel over the 8 mutually recursive resolver functions with a scope invariant) + differential '
+                 'correspondence check + implementation-only oracle',
+    'design_ref': 'DESIGN.md §4 C06',
+}
 
 
 def generate(rng, tier):
@@ -31,7 +67,7 @@ def generate(rng, tier):
     yield ('missing-references', G.render(G.gen_missing(rng, tier)))
     yield ('selects', G.render(G.gen_selects(rng, tier)))
     yield ('numbers', G.render(G.gen_numbers(rng, tier)))
-    n = 2500 if tier == 'quick' else 60000
+    n = 3000 if tier == 'quick' else 60000
     yield ('random-bundles', G.render(G.gen_random(rng, n)))
 
 
